@@ -123,7 +123,11 @@ def run_pair(kind, ksr, skr, pol, table, strict=True, desc=None, layout="single"
         mods = [FakeModule(dict(items[::2])), FakeModule({}), FakeModule(dict(items[1::2]))]
     else:
         mods = [FakeModule(table)]
-    r = vlib.run_impl(check_skr_and_ksr, kreq, kresp, pol, mods)
+    if len(cases) % 4 == 3:
+        with vlib.debug_logging():              # every fourth pair is judged with debug logging on (the tools' --debug): same verdict
+            r = vlib.run_impl(check_skr_and_ksr, kreq, kresp, pol, mods)
+    else:
+        r = vlib.run_impl(check_skr_and_ksr, kreq, kresp, pol, mods)
     acc = r[0] == "ok"
     accepts += acc
     want = spec(pol, ksr, skr, table)
